@@ -138,7 +138,8 @@ package bebop
 //@   ensures [EOFMARK] stepEOF(tr)
 //@   modifies tr.errs, tr.loc.lineChar, tr.loc.line, tr.nextToken, tr.lastToken, ghost("canunread", tr.r), ghost("ateof", tr.r), ghost("ioerr", tr.r), fresh(locError), fresh(byte), any(string), tr(), hw(), alloc()
 //@ func blockCommentToken
-//@   invariant loop 1: tk.kind == tokenKindBlockComment && len(tk.concrete) >= 2 && (lastByte == 42 ==> len(tk.concrete) >= 3)
+//@   invariant loop 1: tk.kind == tokenKindBlockComment && len(tk.concrete) >= 2
+//@   invariant loop 1: lastByte == 42 ==> len(tk.concrete) >= 3
 //@   requires tr != nil && tr.r != nil && tr.tree != nil
 //@   requires wfKC(tr.nextToken.kind, tr.nextToken.concrete)
 // the token tree registers this builder under a two-byte prefix ("//", "/*"); the dispatch through the tree is trusted
